@@ -19,7 +19,7 @@ RULE = ('one run = one CONNECT to a drawn host (DNS names, IPv4 and bracketed IP
         'segmented / partially written, or the opt-out is used; distinct = distinct event-log digests')
 PROBES = ['second_host', 'trusted_origin', 'selfsigned_origin', 'wrongname_origin', 'expired_origin', 'insecure_switch', 'opt_out',
           'ip_literal_host', 'ipv6_literal_host', 'cold_cache', 'warm_cache', 'second_request', 'request_body',
-          'client_verified_leaf', 'bad_origin_refused', 'partial_tls_write', 'want_write_retry', 'large_response', 'long_host_name']
+          'client_verified_leaf', 'bad_origin_refused', 'partial_tls_write', 'want_write_retry', 'large_response', 'long_host_name', 'odd_subject_origin']
 COMPONENTS = {
     'real': ['proxy/http/proxy/server.py (intercept, wrap_server, wrap_client, certificate generation)',
              'proxy/core/connection/server.py (wrap)', 'proxy/core/connection/client.py (wrap)', 'proxy/common/pki.py + the '
@@ -55,7 +55,7 @@ def setup_worker(job: Dict[str, Any]) -> None:
     _px.update(px)
     # origin certificates are made up front (real openssl runs outside any World)
     for host, _, _ in HOSTS:
-        for kind in ('good', 'selfsigned', 'wrongname', 'expired'):
+        for kind in ('good', 'selfsigned', 'wrongname', 'expired', 'oddsubject'):
             _px[(host, kind)] = origin_cert(px, host.strip('[]'), kind)
 
 
@@ -85,9 +85,12 @@ def run_one(tape: Any, cfg: Dict[str, Any], forbid: FrozenSet[str] = frozenset()
         w.dns['secure.example'] = ['10.0.7.1']
         w.dns['other.example'] = ['10.0.7.2']
         w.dns[HOSTS[4][0]] = ['10.0.7.5']
-        situation = ['good', 'selfsigned', 'wrongname', 'expired'][tape.weighted([5, 2, 2, 1], 'cert')]
+        situation = ['good', 'selfsigned', 'wrongname', 'expired', 'oddsubject'][tape.weighted([5, 2, 2, 1, 1], 'cert')]
+        if situation == 'oddsubject' and not g.note('odd_upstream_subject'):
+            situation = 'good'
+        odd_subject = situation == 'oddsubject'     # trusted and rightly named; only its subject has '/' and '+' in a value
         w.probe({'good': 'trusted_origin', 'selfsigned': 'selfsigned_origin', 'wrongname': 'wrongname_origin',
-                 'expired': 'expired_origin'}[situation])
+                 'expired': 'expired_origin', 'oddsubject': 'odd_subject_origin'}[situation])
         insecure = g.feature('insecure_switch', 0.25)
         opt_out = g.feature('opt_out', 0.15)
         cold = g.feature('cold_cache', 0.15)
@@ -196,7 +199,7 @@ def run_one(tape: Any, cfg: Dict[str, Any], forbid: FrozenSet[str] = frozenset()
 
         # ---- oracle -------------------------------------------------------------------------------------------------
         sig = '%s:%s%s%s' % (hkind, situation, ':insecure' if insecure else '', ':optout' if opt_out else '')
-        relay_expected = situation == 'good' or (insecure and not opt_out)
+        relay_expected = situation in ('good', 'oddsubject') or (insecure and not opt_out)
         if not w.failures and not w.hung:
             ot = org.conns[0].tls if org.conns and org.conns[0].tls is not None else None
             orx = bytes(org.conns[0].rx) if org.conns else b''
@@ -207,7 +210,7 @@ def run_one(tape: Any, cfg: Dict[str, Any], forbid: FrozenSet[str] = frozenset()
 
             elif opt_out:
                 # opaque tunnel: the client's TLS goes end to end to the origin; the proxy must not have touched it
-                if situation == 'good':
+                if situation in ('good', 'oddsubject'):
                     if ct is None or not ct.done:
                         w.fail('opt_out_not_opaque', sig, 'opted-out tunnel: end-to-end TLS with the origin failed: %s %s'
                                % (ct and ct.error, ct and ct.error_detail))
